@@ -6,7 +6,16 @@ import numpy as np
 
 from fixtures import h5, v4
 
-RULE = ('stream args: selection arguments (all/empty/comma strings with blanks/lists/unknown names; every subset of '
+RULE = ('stream args, systematic part (every run, every format): an unknown name at every position (first / middle / last / both ends) of '
+        'requests of 1-3 known names as list, tuple and string; every placement (leading / trailing on the whole string, before / '
+        'after the comma, everywhere) of each ASCII white-space character in string requests, and the same padded names as list '
+        'elements.  stream tables: v3 / v2 files with their OWN flags_description table (KAT-7 table, the documented names in another '
+        'order, 8 random distinct names, a 7-row table that must be refused) opened through katdal.open, 25-33 select() calls each '
+        '(names of the table as string / list / tuple, names the table does not have, unknown names in front of known ones, white '
+        'space at both ends, empty, all, calls without flags=); after EVERY call _flags_select, d.flags, the warnings and the names '
+        'the getter reports are compared with wire 164; a case is one (file, history prefix), non-trivial when a name of the table '
+        'is requested, distinct by (format, table, step, argument).  '
+        'stream args: selection arguments (all/empty/comma strings with blanks/lists/unknown names; every subset of '
         'the 8 documented names in the thorough tier) applied with select(flags=...) to synthetic v4, v3 and v2 data '
         'sets whose stored flag bytes run through all 256 values; a case is one (format, argument) pair, non-trivial '
         'when the argument names at least one flag, distinct by (format, canonical argument).  stream v4cal: random '
@@ -33,7 +42,8 @@ RULE = ('stream args: selection arguments (all/empty/comma strings with blanks/l
         '_weights_select, its own flags and (v4) raw_flags are compared with the model of the selection plumbing '
         '(wire 162) and with the spec mask of the last flags= given to the whole; a case is one (concatenation, '
         'history prefix), non-trivial when some selected raw byte is non-zero, distinct by (configuration, step)')
-ASSUMPTIONS = ['v2/v3 files without a flags_description table (the default description is flags.NAMES)',
+ASSUMPTIONS = ['v2/v3 files of the args / interleave / concat streams have no flags_description table (the default '
+               'description is flags.NAMES); files with their own table of 8 distinct names are the tables stream',
                'v4cal stream: which samples carry an invalid correction is computed from the generated cal solutions '
                '(G constant in time, B piecewise constant in time with NaN only at band edges or for whole inputs); '
                'the general derivation of corrections from solutions is C13/C14',
@@ -83,6 +93,7 @@ def gen_args(ctx):
     args = ['all', '', [], 'cam', 'data_lost', ['static'], 'cam,static', ' cam , postproc ', 'bogus',
             'bogus,cam', ['nope', 'cal_rfi'], 'reserved0', list(DOC), 'all,cam', 'ALL', 'Cam', ',', 'cam,',
             ['cam', 'cam'], ('ingest_rfi', 'predicted_rfi')]
+    args += [a for _cls, a in systematic_args()]
     if ctx.tier == 'thorough':
         for m in range(256):
             names = [DOC[i] for i in range(8) if m >> i & 1]
@@ -98,6 +109,46 @@ def gen_args(ctx):
         else:
             args.append(names)
     return args
+
+
+WS = [' ', '\t', '\n', '\r', '\x0b', '\x0c', ' \t ', '\r\n']      # white space str.strip() removes (ASCII)
+
+
+def systematic_args():
+    """[(class, argument)] - the two families every run walks through on every format:
+    * an UNKNOWN name at every position of a request of 1-3 known names (and two unknown names), as a list, a tuple and
+      a string: the names in front of it AND the names behind it must count (a setter that gives up at the first
+      unknown name only shows when a known name FOLLOWS it);
+    * every placement of white space in a string request: in front of the whole string, behind it, before / after a
+      comma, everywhere - for every white space character str.strip() removes; and the same strings handed in as
+      LIST elements, where nothing is stripped (' cam' is then an unknown name)."""
+    out = []
+    for known in (['cam'], ['static', 'cam'], ['postproc', 'reserved0', 'ingest_rfi']):
+        for pos in range(len(known) + 1):
+            names = known[:pos] + ['bogus'] + known[pos:]
+            where = 'first' if pos == 0 else ('last' if pos == len(known) else 'middle')
+            out.append(('unknown@%s;kind=list' % where, list(names)))
+            out.append(('unknown@%s;kind=str' % where, ','.join(names)))
+        out.append(('unknown@both_ends;kind=list', ['nope'] + known + ['bogus']))
+        out.append(('unknown@both_ends;kind=str', ','.join(['nope'] + known + ['bogus'])))
+    out.append(('unknown@first;kind=tuple', ('bogus', 'cal_rfi', 'static')))
+    out.append(('unknown@first;kind=list', ['', 'data_lost']))              # the empty name is an unknown name too
+    out.append(('unknown@first;kind=str', ',data_lost'))
+    for w in WS:
+        out.append(('ws=leading;kind=str', w + 'cam'))
+        out.append(('ws=trailing;kind=str', 'cam' + w))
+        out.append(('ws=leading;kind=str', w + 'static,cam'))
+        out.append(('ws=trailing;kind=str', 'static,cam' + w))
+        out.append(('ws=before_comma;kind=str', 'static' + w + ',cam'))
+        out.append(('ws=after_comma;kind=str', 'static,' + w + 'cam'))
+        out.append(('ws=everywhere;kind=str', w + 'static' + w + ',' + w + 'cam' + w))
+    out.append(('ws=leading;kind=str', ' all'))                             # NOT the group 'all': the unknown name 'all'
+    out.append(('ws=only;kind=str', ' '))
+    out.append(('ws=trailing;kind=str', 'postproc,\n'))
+    for w in (' ', '\n'):
+        out.append(('ws=leading;kind=list', [w + 'cam', 'static']))          # list elements are NOT stripped
+        out.append(('ws=trailing;kind=list', ['static', 'cam' + w]))
+    return out
 
 
 def build(ctx):
@@ -245,6 +296,7 @@ def run(ctx):
         walls[name] = round(walls.get(name, 0.0) + time.time() - t_run[0], 1)
         t_run[0] = time.time()
     del _INCOQ[:]
+    del _INCOQ_TAB[:]
     args = gen_args(ctx)
     mcases = [[16, [1, wire_arg(a)]] for a in args]
     mouts = ctx.model(mcases) if ctx.model_ok else None
@@ -256,6 +308,9 @@ def run(ctx):
         if o[0] != int((r & m) != 0) or o[1] != o[0]:
             ctx.disagree('what=flag_bool_model', dict(raw=r, mask=m), int((r & m) != 0), o, 'model flag_bool != numpy')
     tmp, sets = build(ctx)
+    sys_classes = {}
+    for cls, a in systematic_args():
+        sys_classes.setdefault(repr(canon_arg(a)), []).append(cls)
     try:
         for fmt, (d, stored, lost) in sets.items():
             base_vis = np.asarray(d.vis[:]).copy()
@@ -271,6 +326,8 @@ def run(ctx):
                               if i == 3 else None)
                 ctx.count('fmt=' + fmt)
                 ctx.count('argkind=' + ('str' if isinstance(a, str) else 'list'))
+                for cls in sys_classes.get(repr(canon_arg(a)), ()):
+                    ctx.count('args:' + cls.split(';')[0])
             # interleavings with other select() calls: flag/weight selection must not move anything else
             lap('args')
             interleave(ctx, fmt, d, stored, lost, base_vis)
@@ -284,6 +341,14 @@ def run(ctx):
         shutil.rmtree(tmp, ignore_errors=True)
     ctx.exhaustive = False
     ctx.extra['masks_swept_bytewise'] = len(masks[:40])
+    # v3 / v2 files that carry their own flag table
+    for f in ctx.findings:
+        w = f.get('witness') or {}
+        if w.get('stream') == 'tables':
+            run_tables(ctx, w['cfg'])
+    for i in range(ctx.scale(8, 60)):
+        run_tables(ctx, gen_tables(ctx.rng, ctx.tier, force=TABLES_FORCED[i] if i < len(TABLES_FORCED) else None))
+    lap('tables')
     # v4 data sets with calibration applied and lost chunks under random selection histories
     for f in ctx.findings:
         w = f.get('witness') or {}
@@ -319,7 +384,7 @@ def run(ctx):
     if ctx.tier == 'thorough' and ctx.model_ok and not ctx.searching:
         # extraction cross-check: the same cases through vm_compute inside Coq
         from vh import core
-        sample = _INCOQ[:40] + list(zip(mcases[:40], (mouts or [])[:40]))
+        sample = _INCOQ[:40] + _INCOQ_TAB[:16] + list(zip(mcases[:40], (mouts or [])[:40]))
         outs = core.run_model_in_coq([c for c, _ in sample], 'c16')
         for (c, o), oc in zip(sample, outs):
             if o != oc:
@@ -459,6 +524,9 @@ def replay(ctx, doc):
     if case.get('stream') == 'concat':
         run_concat(ctx, case['cfg'])
         return
+    if case.get('stream') == 'tables':
+        run_tables(ctx, case['cfg'])
+        return
     tmp, sets = build(ctx)
     try:
         if case.get('stream') == 'threads':
@@ -473,6 +541,217 @@ def replay(ctx, doc):
         mo = ctx.model([[16, [1, wire_arg(a)]]])[0] if ctx.model_ok else spec_py(a)
         check_selection(ctx, fmt, d, stored, lost, a, mo)
         ctx.note_case((fmt, canon_arg(a)))
+    finally:
+        shutil.rmtree(tmp, ignore_errors=True)
+
+
+# ---------------------------------------------------------------------------------------------------------------
+# stream tables: v3 / v2 files that carry their OWN flag table (Data/flags_description, Markup/flags_description)
+# ---------------------------------------------------------------------------------------------------------------
+KAT7 = ['reserved0', 'static', 'cam', 'reserved3', 'detected_rfi', 'predicted_rfi', 'reserved6', 'reserved7']
+TABLES_FORCED = [dict(fmt='v3', kind='kat7'), dict(fmt='v2', kind='kat7'), dict(fmt='v3', kind='permuted'),
+                 dict(fmt='v2', kind='permuted'), dict(fmt='v3', kind='short'), dict(fmt='v2', kind='short'),
+                 dict(fmt='v3', kind='random'), dict(fmt='v2', kind='random')]
+
+
+def gen_tables(rng, tier='quick', force=None):
+    """One file with its own flag table + a list of select() calls.  kinds: kat7 (the table the KAT-7 flagger wrote),
+    permuted (the eight documented names in ANOTHER order: code that reads flags.NAMES instead of the file shows),
+    random (8 distinct invented names, some of them documented ones), short (7 rows: must be refused)."""
+    force = force or {}
+    fmt = force.get('fmt') or rng.choice(['v3', 'v2'])
+    kind = force.get('kind') or rng.choice(['kat7', 'permuted', 'random', 'random'])
+    if kind == 'kat7':
+        table = list(KAT7)
+    elif kind == 'permuted':
+        table = list(DOC)
+        while table == DOC:
+            rng.shuffle(table)
+    elif kind == 'short':
+        table = list(KAT7[:7])
+    else:
+        pool = DOC + KAT7 + ['a', 'B', 'rfi', 'cam2', 'x y', 'flag-7', 'Static', 'all_rfi', 'none']
+        table = []
+        while len(table) < 8:
+            n = rng.choice(pool)
+            if n not in table:
+                table.append(n)
+    t = table
+    outside = [n for n in DOC + ['bogus', 'Cam', ''] if n not in t]
+    calls = [{'flags': t[2]}, {}, {'flags': [t[4], t[1]]}, {'flags': '%s,%s' % (t[1], t[2])}, {'dumps': [1, 3]},
+             {'flags': outside[0]}, {'flags': '%s,%s' % (outside[0], t[5])}, {'flags': [outside[1], t[0], t[6]]},
+             {'flags': ''}, {'flags': 'all'}, {'flags': ' %s , %s\n' % (t[3], t[0])}, {'flags': '\t' + t[6]},
+             {'flags': t[5] + '\n'}, {'flags': []}, {'flags': list(t)}, {'flags': {'tuple': [t[0], outside[0], t[5]]}},
+             {'weights': 'precision'}, {'flags': list(reversed(t))[:3] + [t[-1]]}]
+    for _ in range(6 if tier == 'quick' else 14):
+        r = rng.random()
+        if r < 0.25:
+            calls.append(rng.choice([{}, {'dumps': [0, 2]}, {'channels': [2, 6]}, {'weights': ''}, {'weights': 'all'}]))
+            continue
+        k = rng.randint(0, 4)
+        names = [rng.choice(t + outside[:3]) for _ in range(k)]
+        if rng.random() < 0.5:
+            pad = lambda n: rng.choice(['', '', ' ', '\n', '\t']) + n + rng.choice(['', '', ' ', '\n'])   # noqa: E731
+            calls.append({'flags': ','.join(pad(n) for n in names)})
+        else:
+            calls.append({'flags': names})
+    return dict(fmt=fmt, kind=kind, table=table, calls=calls)
+
+
+def table_py(fmt, table, a):
+    """Python fallback of wire 164 (1 ...): [mask, spec mask, number of warnings, names of the set bits]."""
+    names = _names_py(a, table)
+    m = sum(1 << (7 - i if fmt == 'v2' else i) for i, n in enumerate(table) if n in names)
+    return [m, m, sum(1 for n in names if n not in table), [n for n in table if n in names]]
+
+
+def open_table_file(cfg, tmp):
+    """mkv3 / mkv2 file + the flag (and weight) description table appended the way the ingest / the KAT-7 flagger
+    wrote it (fixed-length byte strings, rows (name, description)), opened through katdal.open."""
+    import os
+    import h5py
+    import katdal
+    from fixtures.mkv2 import mkv2
+    from fixtures.mkv3 import mkv3
+    T, F, B = 4, 8, 10
+    fl = (np.arange(T * F * B) * 37 % 256).astype(np.uint8).reshape(T, F, B)
+    fn = os.path.join(tmp, '1500000000.h5' if cfg['fmt'] == 'v3' else '1300000000.h5')
+    kw = dict(T=T, F=F, flags=fl, acts=[(0, 'slew'), (2, 'track')], targets=[(0, h5.A)], labels=[(0, 'track')])
+    stored, _cps = (mkv3 if cfg['fmt'] == 'v3' else mkv2)(fn, **kw)
+    with h5py.File(fn, 'r+') as f:
+        g = f['Data'] if cfg['fmt'] == 'v3' else f['Markup']
+        g.create_dataset('flags_description',
+                         data=np.array([(n, 'what %s means' % n) for n in cfg['table']], dtype='S40'))
+        g.create_dataset('weights_description', data=np.array([('precision', 'visibility precision')], dtype='S40'))
+    d = katdal.open(fn, **(dict(centre_freq=1284e6) if cfg['fmt'] == 'v3' else {}))
+    return d, fl, stored
+
+
+def run_tables(ctx, cfg):
+    """A file with its own flag table under a list of select() calls: after EVERY call the mask (d._flags_select), the
+    boolean flags through d.flags, the names the getter reports and the number of `not a legitimate flag type`
+    warnings against the model (wire 164: tie) and against `exactly the bits of the requested names OF THE FILE'S TABLE,
+    bit i / 7-i` (property)."""
+    fmt, table, kind = cfg['fmt'], cfg['table'], cfg['kind']
+    tmp = v4.scratch_dir('c16tab')
+    use = _have(ctx, 164)
+    # while an obligation is broken (failing-input search) the driver may be the LAST GOOD one - possibly built from
+    # another tree (e.g. the previous patch under test): lines against the model would be artefacts; the property
+    # lines (bits of the requested names of the file's table) do not depend on it
+    tie_ok = not getattr(ctx, 'searching', False)
+    tcodes = [codes(n) for n in table]
+    base = 'stream=tables;fmt=%s;table=%s' % (fmt, kind)
+    try:
+        try:
+            d, fl, stored = open_table_file(cfg, tmp)
+        except Exception as e:
+            if len(table) == 8:
+                ctx.disagree(base + ';obs=open;symptom=raises;exc=%s' % type(e).__name__,
+                             dict(stream='tables', cfg=dict(cfg, calls=[])), repr(e)[:200], 'a data set',
+                             'a file with its own table of 8 flag names cannot be opened')
+            else:
+                ctx.traces_validated += 1
+                ctx.note_case(('tables', fmt, tuple(table), 'refused'), nontrivial=True)
+                ctx.count('tables:refused(%d rows)' % len(table))
+            return
+        if len(table) != 8:
+            # the model says: refused.  Answering is only wrong if the answer is wrong - there is no right answer for 7 names
+            ctx.disagree(base + ';obs=open;symptom=accepted', dict(stream='tables', cfg=dict(cfg, calls=[])),
+                         int(np.asarray(d._flags_select).ravel()[0]), 'AssertionError',
+                         'a file whose flag table does not have 8 rows was opened (model: refused)', kind='tie')
+            return
+        vis0 = np.asarray(d.vis[:]).copy()
+        w_all = np.asarray(d.weights[:]).copy()
+        hist, cur = [], 'all'
+        for step, call in enumerate([None] + list(cfg['calls'])):
+            case = dict(stream='tables', cfg=dict(cfg, calls=cfg['calls'][:step]))
+            nwarn = None
+            if call is not None:
+                kw = {}
+                for k, v in call.items():
+                    kw[k] = slice(*v) if k in ('dumps', 'channels') else _py_arg(v)
+                try:
+                    with _Warnings() as w:
+                        d.select(**kw)
+                    nwarn = w.unknown_flag_warnings()
+                except Exception as e:
+                    ctx.disagree(base + ';obs=select;symptom=raises;exc=%s' % type(e).__name__, case, repr(e)[:200], None,
+                                 'select() raised on a file with its own flag table')
+                    return
+                hist.append([_wire_opt(call, 'flags'), _wire_opt(call, 'weights')])
+                if 'flags' in call:
+                    cur = _py_arg(call['flags'])
+            mo = ctx.model([[164, [1, FMT_CODE[fmt], tcodes, wire_arg(cur)]]])[0] if use else table_py(fmt, table, cur)
+            if use:
+                _INCOQ_TAB.append(([164, [1, FMT_CODE[fmt], tcodes, wire_arg(cur)]], mo))
+                mo = mo[:3] + [[''.join(chr(c) for c in n) for n in mo[3]]]
+                if not tie_ok:      # warning count and getter names follow the regenerated constants: take the documented ones
+                    mo = mo[:2] + table_py(fmt, table, cur)[2:]
+            names = _names_py(cur, table)
+            sel = 'all' if cur == 'all' else ('empty' if not names else
+                                              ('named' if any(n in table for n in names) else 'unknown_only'))
+            sig = '%s;sel=%s;argkind=%s;flags_kw_in_step=%s' % (base, sel, 'str' if isinstance(cur, str) else 'list',
+                                                               'yes' if call and 'flags' in call else 'no')
+            mask = int(np.asarray(d._flags_select).ravel()[0])
+            ok = True
+            if mask != mo[1]:
+                ok = False
+                ctx.disagree(sig.replace(base, base + ';obs=mask'), case, mask, mo[0],
+                             'mask differs from the bits of the requested names of the table of the file', spec=mo[1])
+            elif mask != mo[0] and tie_ok:
+                ok = False
+                ctx.disagree(sig.replace(base, base + ';obs=mask') + ';vs=model', case, mask, mo[0],
+                             'mask differs from the model', spec=mo[1], kind='tie')
+            sub = fl[np.ix_(d.dumps, d.channels, _cp_index(d))]
+            got = np.asarray(d.flags[:])
+            exp = (sub & np.uint8(mo[1])) != 0
+            if ok and (got.dtype != bool or not np.array_equal(got, exp)):
+                ok = False
+                bad = np.argwhere(np.asarray(got != 0) != exp)
+                ctx.disagree(sig.replace(base, base + ';obs=flags'), case, str(got.dtype) if not len(bad) else bool(got[tuple(bad[0])]),
+                             'bool' if not len(bad) else bool(exp[tuple(bad[0])]),
+                             'd.flags differs from (stored byte & mask of the requested names of the file table) != 0', spec=mo[1])
+            if ok and call is not None and 'flags' in call and nwarn is not None:
+                # select() runs the setter twice (the keyword, then the read-back through the getter, which only names
+                # known flags): the warnings of a call are those of its own argument
+                if nwarn != mo[2]:
+                    ok = False
+                    ctx.disagree(sig.replace(base, base + ';obs=warnings;%s' % ('missing' if nwarn < mo[2] else 'spurious')), case,
+                                 nwarn, mo[2], 'number of "not a legitimate flag type" warnings differs from the number of '
+                                 'requested names the table of the file does not have')
+            getter = [n.decode() if isinstance(n, bytes) else str(n) for n in d._flags_keep]    # np.bytes_ is a bytes
+            if ok and getter != mo[3] and tie_ok:
+                ok = False
+                ctx.disagree(sig.replace(base, base + ';obs=getter') + ';vs=model', case, getter, mo[3],
+                             'the names d._flags_keep reports differ from the names of the set bits', kind='tie')
+            if ok and call is not None and not np.array_equal(np.asarray(d.vis[:]), vis0[np.ix_(d.dumps, d.channels, _cp_index(d))]):
+                ok = False
+                ctx.disagree(base + ';obs=vis', case, 'moved', 'unchanged', 'visibilities changed under a flag selection')
+            if ok and call is not None and 'weights' in call:
+                won = _py_arg(call['weights']) in ('all', 'precision')
+                wexp = w_all[np.ix_(d.dumps, d.channels, _cp_index(d))] if won else 1.0
+                if not np.array_equal(np.asarray(d.weights[:]), np.broadcast_to(wexp, d.shape)):
+                    ok = False
+                    ctx.disagree(base + ';obs=weights;wsel=%s' % ('on' if won else 'off'), case, 'differ',
+                                 'stored' if won else 'ones', 'weights on a file with its own weight table do not follow '
+                                 'weights=', kind='tie')
+            ctx.traces_validated += 1
+            ctx.note_case(('tables', fmt, tuple(table), step, repr(cur)), nontrivial=sel in ('named', 'all'),
+                          sample=dict(stream='tables', fmt=fmt, table=table, flags=canon_arg(cur), mask=mo[1]) if step == 4 else None)
+            ctx.count('tables:fmt=%s;table=%s' % (fmt, kind))
+            ctx.count('tables:sel=' + sel)
+            if not ok:
+                return
+        # the whole history through the faithful model of select() on the file's table (wire 164 (2 ...))
+        if use and tie_ok:
+            outs = ctx.model([[164, [2, FMT_CODE[fmt], tcodes, hist]]])[0]
+            _INCOQ_TAB.insert(0, ([164, [2, FMT_CODE[fmt], tcodes, hist]], outs))
+            last = outs[-1] if isinstance(outs, list) and outs else None
+            mask = int(np.asarray(d._flags_select).ravel()[0])
+            if not last or last[0] != mask or last[0] != last[1]:
+                ctx.disagree(base + ';obs=mask_after_history;vs=model', dict(stream='tables', cfg=cfg), mask, last,
+                             'mask after the whole history differs from the model of select() on the table of the file',
+                             spec=last[1] if last else None, kind='tie')
     finally:
         shutil.rmtree(tmp, ignore_errors=True)
 
@@ -1121,6 +1400,7 @@ def run_v4cal(ctx, cfg):
 # stream concat: ConcatenatedDataSet of v4 / v3 / v2 members under histories of flag / weight selections
 # ---------------------------------------------------------------------------------------------------------------
 FMT_CODE = {'v4': 4, 'v3': 3, 'v2': 2}
+_INCOQ_TAB = []
 _INCOQ = []     # (wire case, output of the extracted model): a sample is re-evaluated inside Coq in the thorough tier
 # every run walks each kind of concatenation through this history (the demo of every spelling of a selection,
 # the empty ones after non-empty ones, with calls without flags= in between)
